@@ -11,7 +11,7 @@ import (
 func init() {
 	register(stream{
 		name: "selparse",
-		rule: "selector.Parse on \".\" followed by every string of length ≤ N (N=4 quick, 6 thorough) over the 11-character alphabet . [ ] \" ? : - 0 1 a \\ — i.e. every balanced and unbalanced combination of quotes, brackets, dots and question marks — plus strings that do not start with a dot, mutations of valid selectors and non-ASCII field names; compared: accept/reject, the field-by-field dump of every segment through its exported accessors, and Selector.String(). Added later: every accepted text is also RESOLVED on two probe values (a map with the keys \"\", a, 0, 1 and a list) and compared with the model's parse-then-resolve, so that a segment that keeps its text but changes its kind is seen. Non-trivial = the text contains a quote, a bracket or a question mark. Distinct = distinct protocol lines.",
+		rule: "selector.Parse on \".\" followed by every string of length ≤ N (N=4 quick, 6 thorough) over the 11-character alphabet . [ ] \" ? : - 0 1 a \\ — i.e. every balanced and unbalanced combination of quotes, brackets, dots and question marks — plus strings that do not start with a dot, mutations of valid selectors and non-ASCII field names; compared: accept/reject, the field-by-field dump of every segment through its exported accessors, and Selector.String(). Added later: every accepted text is also RESOLVED on two probe values (a map with the keys \"\", a, 0, 1 and a list) and compared with the model's parse-then-resolve, so that a segment that keeps its text but changes its kind is seen. Every content of one bracket segment over {\", \\, a} of up to 6 (thorough 7) characters, alone, optional, and between two other segments. Non-trivial = the text contains a quote, a bracket or a question mark. Distinct = distinct protocol lines.",
 		run:  runSelParseStream,
 		eval: evalSelector,
 		cmp:  cmpImplSpec, // the probe lines (sel.select) carry the model's and the specification's answer
@@ -54,6 +54,24 @@ func runSelParseStream(c *ctx) error {
 	} {
 		emit(s, "parse-special")
 		probe(s, "parse-special")
+	}
+	// EVERY content of one bracket segment over {", \, a} of up to 6 (thorough 7) characters, alone, followed by `?`, and between
+	// two other segments: quoted names with escaped quotes and backslashes at every position, closed names followed by more text
+	// (`.["a"\"]`), lone and doubled backslashes before the closing bracket
+	{
+		bl := 6
+		if c.thoro {
+			bl = 7
+		}
+		allStrings("\"\\a", bl, func(w string) {
+			if !strings.Contains(w, "\"") {
+				return
+			}
+			for _, t := range []string{".[" + w + "]", ".[" + w + "]?", ".x[" + w + "].y"} {
+				emit(t, "parse-bracket")
+			}
+			probe(".["+w+"]", "parse-bracket")
+		})
 	}
 	// mutations of valid selectors
 	valid := []string{`.foo.bar[0]?["k"][1:2][]?`, `.a[-1:][]["x y"]?.b`, `.["a"]["b"]?[0][-1]?`, `.x?.y?.z?[:3]`}
